@@ -119,7 +119,7 @@ Theorem C20_verify_leaves_other_format :
   stat (snd (name_from_id (mkStore (st_base st) (negb (st_unc st)) (st_skip st)) j)) s0 /\
   (is_dir (stat (fst (name_from_id st j)) s0) = true -> stat (snd (name_from_id st j)) s0 = None ->
    ~ In j (reported msgs)).
-Proof. exact verify_leaves_other_format. Qed.
+Proof. exact verify_leaves_other_format_any. Qed.
 Print Assumptions C20_verify_leaves_other_format.
 
 (* "Serves": the HTTP chunk handler's name rule.  A request path is accepted only in the shape
